@@ -30,6 +30,7 @@ type memConn struct {
 	mu       sync.Mutex
 	cond     *sync.Cond
 	out      []byte // written by the peer, read by the harness
+	in       []byte // what the remote says (Feed)
 	closed   bool
 	deadline time.Time
 }
@@ -40,11 +41,24 @@ func newMemConn() *memConn {
 	return c
 }
 
-// Read: the remote never says anything; block until closed or past the read deadline
+// Feed: the remote sends these bytes
+func (c *memConn) Feed(b []byte) {
+	c.mu.Lock()
+	c.in = append(c.in, b...)
+	c.cond.Broadcast()
+	c.mu.Unlock()
+}
+
+// Read: what the remote said (Feed); block until there is some, closed, or past the deadline
 func (c *memConn) Read(b []byte) (int, error) {
 	c.mu.Lock()
 	defer c.mu.Unlock()
 	for {
+		if len(c.in) > 0 {
+			n := copy(b, c.in)
+			c.in = c.in[n:]
+			return n, nil
+		}
 		if c.closed {
 			return 0, io.EOF
 		}
